@@ -13,18 +13,24 @@ import (
 
 // collectLines runs a 2D renderer through the real Line2Buffer into an in-memory list.
 func collectLines(s sdf.SDF2, r render.Render2) []*sdf.Line2 {
-	ch := make(chan []*sdf.Line2)
+	// a legitimate but unforgiving consumer: buffered channel, and every received batch is kept
+	// untouched until the renderer has finished (the receiver owns what it received)
+	ch := make(chan []*sdf.Line2, 8)
 	done := make(chan struct{})
-	var all []*sdf.Line2
+	var keep [][]*sdf.Line2
 	go func() {
 		for ls := range ch {
-			all = append(all, ls...)
+			keep = append(keep, ls)
 		}
 		close(done)
 	}()
 	r.Render(s, sdf.NewLine2Buffer(ch))
 	close(ch)
 	<-done
+	var all []*sdf.Line2
+	for _, b := range keep {
+		all = append(all, b...)
+	}
 	return all
 }
 
